@@ -131,11 +131,11 @@ def _pac(em, rng, row, opts):
 ALL_OPTS = ("midrow", "special", "extended", "bs", "to", "der", "pacattr", "indent", "enm", "edm_before_eoc")
 
 
-def gen_stream(rng, style=None, plain=False):
+def gen_stream(rng, style=None, plain=False, doubling=None):
   """One random stream.  Returns dict(lines=[(frame, [words])], df, parity, align, features, style)."""
   df = rng.random() < 0.5
   style = style or rng.choice(["popon", "popon", "rollup", "painton"])
-  doubling = rng.choice(["all", "all", "none", "mixed"])
+  doubling = doubling or rng.choice(["all", "all", "none", "mixed"])
   opts = set() if plain else {o for o in ALL_OPTS if rng.random() < 0.55}
   p_null = 0 if plain else rng.choice([0, 0, 0.15])
   p_ch2 = 0 if plain else rng.choice([0, 0, 0.2])
